@@ -133,4 +133,112 @@ theorem introspect_implements_eq {doc : Doc} {s : Schema} (h : AcceptedFacts doc
   simp
 
 
+theorem flatMap_if_eq_filter_map {α β : Type} (p : α → Bool) (g : α → β) (l : List α) :
+    l.flatMap (fun a => if p a = true then [g a] else []) = (l.filter p).map g := by
+  induction l with
+  | nil => rfl
+  | cons a as ih =>
+    by_cases h : p a = true <;> simp [List.flatMap_cons, List.filter_cons, h, ih]
+
+/-- In an accepted document a field is an edge (its base type is a vertex type) iff its base type is
+not a built-in scalar. -/
+theorem isVertex_eq_not_builtin {doc : Doc} {s : Schema} (h : AcceptedFacts doc s) {t : TypeDef}
+    (ht : t ∈ doc.types) {f : Field} (hf : f ∈ t.fields) :
+    (findType s.vertexTypes f.ty.base).isSome = !isBuiltin f.ty.base := by
+  rw [h.vertexTypes]
+  rcases h.valid.fieldTypesKnown t ht f hf with hb | hv
+  · rw [hb]
+    cases hs : (findType doc.types f.ty.base).isSome with
+    | false => rfl
+    | true =>
+      obtain ⟨d, hd, hdn⟩ := (findType_isSome_iff _ _).mp hs
+      have := h.notBuiltin d hd
+      rw [hdn, hb] at this; cases this
+  · obtain ⟨d, hd, hdn⟩ := hv
+    have hnb := h.notBuiltin d hd
+    rw [hdn] at hnb
+    rw [hnb, (findType_isSome_iff _ _).mpr ⟨d, hd, hdn⟩]; rfl
+
+theorem field_shallow {doc : Doc} {s : Schema} (h : AcceptedFacts doc s) {t : TypeDef}
+    (ht : t ∈ doc.types) {f : Field} (hf : f ∈ t.fields) : PTy.fromType f.ty = .ok f.ty := by
+  have := h.clean t ht f hf
+  simp only [Field.clean, Bool.and_eq_true] at this
+  exact fromType_ok this.1
+
+theorem propertyNeighbors_eq {doc : Doc} {s : Schema} (h : AcceptedFacts doc s) {t : TypeDef}
+    (ht : t ∈ doc.types) :
+    propertyNeighbors s t =
+      .ok ((t.fields.filter (fun f => isBuiltin f.ty.base)).map fun f => Vertex.property t f.name f.ty) := by
+  unfold propertyNeighbors
+  rw [collect_ok_of_forall _ (fun f => if isBuiltin f.ty.base = true then [Vertex.property t f.name f.ty] else [])]
+  · rw [flatMap_if_eq_filter_map]
+  · intro f hf
+    simp only [field_shallow h ht hf, isVertex_eq_not_builtin h ht hf]
+    cases isBuiltin f.ty.base <;> simp
+
+theorem edgeNeighbors_eq {doc : Doc} {s : Schema} (h : AcceptedFacts doc s) {t : TypeDef}
+    (ht : t ∈ doc.types) :
+    edgeNeighbors s t = .ok ((t.fields.filter (fun f => !isBuiltin f.ty.base)).map Vertex.edge) := by
+  unfold edgeNeighbors
+  rw [collect_ok_of_forall _ (fun f => if (!isBuiltin f.ty.base) = true then [Vertex.edge f] else [])]
+  · rw [flatMap_if_eq_filter_map]
+  · intro f hf
+    simp only [field_shallow h ht hf, isVertex_eq_not_builtin h ht hf]
+    cases isBuiltin f.ty.base <;> simp
+
+/-! #### `properties` -/
+
+def propertyRows (t : TypeDef) : List Row :=
+  (t.fields.filter (fun f => isBuiltin f.ty.base)).map fun f =>
+    [("name", .str t.name), ("property", .str f.name), ("type", .str f.ty.display), ("docs", .null)]
+
+theorem introspect_properties_eq {doc : Doc} {s : Schema} (h : AcceptedFacts doc s) :
+    introspect s .properties = .ok ((listed doc s.queryType.name).flatMap propertyRows) := by
+  unfold introspect
+  apply rows_perVertexType h
+  intro t ht
+  have htm := listed_mem ht
+  simp only [perVertexType, outputs, resolveProperty, asVertexType, Outcome.bind, expand, resolveNeighbors,
+    String.reduceBEq, Bool.false_eq_true, if_false, if_true, propertyNeighbors_eq h htm]
+  rw [collect_map, collect_singletons _ (fun f : Field =>
+    [("property", Cell.str f.name), ("type", Cell.str f.ty.display), ("docs", Cell.null)])]
+  · simp [propertyRows]
+  · intro f _
+    simp [leaf, outputs, resolveProperty, asProperty, Outcome.bind]
+
+/-! #### `edges` -/
+
+def edgeCells (f : Field) : Row :=
+  [("edge", .str f.name), ("to_many", .bool f.ty.isList), ("at_least_one", .bool f.ty.nonNull)]
+
+theorem edgeWithTarget_eq {doc : Doc} {s : Schema} (h : AcceptedFacts doc s) {t : TypeDef}
+    (ht : t ∈ doc.types) {f : Field} (hf : f ∈ t.fields) (he : isBuiltin f.ty.base = false) :
+    edgeWithTarget s edgeOuts (.edge f) = .ok [edgeCells f ++ [("target", .str f.ty.base)]] := by
+  have hv := isVertex_eq_not_builtin h ht hf
+  rw [he] at hv
+  obtain ⟨d, hd⟩ := Option.isSome_iff_exists.mp hv
+  have hdn := (findType_some hd).2
+  simp only [edgeWithTarget, edgeOuts, outputs, resolveProperty, asEdge, Outcome.bind, expand, resolveNeighbors,
+    String.reduceBEq, Bool.false_eq_true, if_false, if_true, field_shallow h ht hf, hd]
+  simp [Outcome.collect, leaf, outputs, resolveProperty, asVertexType, Outcome.bind, hdn, edgeCells]
+
+def edgeRows (t : TypeDef) : List Row :=
+  (t.fields.filter (fun f => !isBuiltin f.ty.base)).map fun f =>
+    [("name", .str t.name)] ++ edgeCells f ++ [("target", .str f.ty.base)]
+
+theorem introspect_edges_eq {doc : Doc} {s : Schema} (h : AcceptedFacts doc s) :
+    introspect s .edges = .ok ((listed doc s.queryType.name).flatMap edgeRows) := by
+  unfold introspect
+  apply rows_perVertexType h
+  intro t ht
+  have htm := listed_mem ht
+  simp only [outputs, resolveProperty, asVertexType, Outcome.bind, expand, resolveNeighbors,
+    String.reduceBEq, Bool.false_eq_true, if_false, if_true, edgeNeighbors_eq h htm]
+  rw [collect_map, collect_singletons _ (fun f : Field => edgeCells f ++ [("target", Cell.str f.ty.base)])]
+  · simp [edgeRows]
+  · intro f hf
+    rw [List.mem_filter] at hf
+    exact edgeWithTarget_eq h htm hf.1 (by simpa using hf.2)
+
+
 end TF.SchemaDoc
